@@ -269,7 +269,9 @@ func enc6(d dhcpv6.DHCPv6) (b []byte, perr any) {
 			perr = fmt.Sprint(r)
 		}
 	}()
-	return d.ToBytes(), nil
+	b = d.ToBytes()
+	laterEncodings()
+	return b, nil
 }
 
 func countTypes(v any, counts map[int]int) {
@@ -666,7 +668,23 @@ func genC06v6(o *Out, rng *rand.Rand, tier string) {
 			rd = append(rd, mr...)
 			w = append(w, 0, 97, 0, byte(len(rd)))
 			w = append(w, rd...)
+			// addresses written here byte by byte (not by the library's encoder): IPv4-mapped, unspecified, all ones
+			addr := [][]byte{{0, 0, 0, 0, 0, 0, 0, 0, 0, 0, 0xff, 0xff, 10, 1, 2, byte(rng.Intn(256))}, make([]byte, 16),
+				{0xff, 0xff, 0xff, 0xff, 0xff, 0xff, 0xff, 0xff, 0xff, 0xff, 0xff, 0xff, 0xff, 0xff, 0xff, 0xff}, randBytes(rng, 16)}
+			iaaddr := append(append([]byte{}, addr[rng.Intn(4)]...), 0, 0, 0, 9, 0, 0, 0, 10)
+			iana := append([]byte{9, 9, 9, 9, 0, 0, 0, 1, 0, 0, 0, 2, 0, 5, 0, byte(len(iaaddr))}, iaaddr...)
+			w = append(w, 0, 3, 0, byte(len(iana)))
+			w = append(w, iana...)
+			pfx2 := append([]byte{0, 0, 0, 1, 0, 0, 0, 2, 128}, addr[rng.Intn(4)]...)
+			iapd2 := append([]byte{4, 3, 2, 1, 0, 0, 0, 5, 0, 0, 0, 6, 0, 26, 0, byte(len(pfx2))}, pfx2...)
+			w = append(w, 0, 25, 0, byte(len(iapd2)))
+			w = append(w, iapd2...)
 			fix6(o, w, "noncanonical")
+			if i%2 == 0 { // the same message behind a relay whose link and peer addresses are such addresses
+				relay := append(append([]byte{12, byte(rng.Intn(4))}, addr[rng.Intn(4)]...), addr[rng.Intn(4)]...)
+				relay = append(relay, 0, 9, byte(len(w)>>8), byte(len(w)))
+				fix6(o, append(relay, w...), "noncanonical")
+			}
 		}
 	}
 }
